@@ -433,18 +433,10 @@ def trace_validate(chk: core.Check, lines: list, name="regtrace"):
     (chk.wd / "I_TraceRegistry.tla").write_text(mod)
     r = tlc.run(chk.wd, "I_TraceRegistry", cfg, workers=1, timeout=3000, env={"TRACE_FILE": str(f)})
     chk.note_tlc(f"Trace_Registry/{name}", r, "trace-validation")
-    rej = {}
-    for ln in r.stdout.splitlines():
-        if ln.startswith('<<"REJECT"'):
-            parts = ln.split(",", 4)
-            rej[int(parts[1])] = parts[4]
     if r.violated:
         chk.tlc_violation("Trace_Registry-" + name, r)
-    elif r.distinct - 1 != len(lines):
-        raise tlc.MachineryError(f"Trace_Registry consumed {r.distinct - 1} of {len(lines)} lines\n" + r.stdout[-3000:])
-    elif not r.ok and not rej:
-        raise tlc.MachineryError("Trace_Registry failed without naming a line:\n" + r.stdout[-3000:])
-    return rej
+        return {}
+    return {i: json.dumps(info[2]) for i, info in tlc.rejected(r, len(lines), "Trace_Registry").items()}
 
 
 def run_traces(chk: core.Check, pid: str, ntraces: int, steps: int, ser: bool = False):
